@@ -4,6 +4,7 @@ from fractions import Fraction
 import fw
 from fw import Corr, Failure, cz, cq, cnat, cbool, clist
 from props import _kscript as K
+from props._c10seed import seed_code, main_code, SEED_POOL
 
 TITLE = 'Real-time and non-real-time modes run the same program identically'
 TRANSLATED = []
@@ -28,8 +29,11 @@ NREQ = 10
 
 
 # ------------------------------------------------------------------ printers
-def xact(a):
+def xact(a, p=None):
     k = a[0]
+    if k == 'SB':          # the same list object sent again: for the model an ordinary send of that bundle
+        t = p['shared'][a[1]]
+        return '(XSend %s %s)' % (K.olat(t[0]), clist(t[1], K.elem))
     if k == 'Y':
         return '(XYield %s)' % K.q(a[1])
     if k == 'S':
@@ -41,7 +45,7 @@ def xact(a):
     if k == 'T':
         return '(XSetTempo %d %s)' % (a[1], K.q(a[2]))
     if k == 'seed':
-        return '(XSeed %s)' % cz(a[1])
+        return '(XSeed %s)' % cz(seed_code(a[1]))
     if k == 'D':
         return '(XDraw %s)' % cz(a[1])
     if k == 'W':
@@ -64,8 +68,8 @@ def xact(a):
 
 
 def xprog(p):
-    return '(mkXP %s %s %d %d %s %s)' % (clist(p['tempos'], K.q), clist(p['bodies'], lambda b: clist(b, xact)),
-                                         p['nconds'], p['nflows'], cz(p['mseed']), K.q(p['tail']))
+    return '(mkXP %s %s %d %d %s %s)' % (clist(p['tempos'], K.q), clist(p['bodies'], lambda b: clist(b, lambda a: xact(a, p))),
+                                         p['nconds'], p['nflows'], cz(main_code(p['mseed'])), K.q(p['tail']))
 
 
 def vevent(v):
@@ -128,6 +132,12 @@ def gen_xprog(rng, profile):
             needs_seed.add(t)
             return ['P', t, home[t]]
         return None
+    shared = []
+    for _ in range(rng.choice([0, 1, 1, 2])):
+        lat = rng.choice([l for l in K.LATS if l is not None and Fraction(l) >= 0])
+        inner = rng.choice([l for l in K.LATS if l is not None and Fraction(l) >= Fraction(lat)])
+        deep = rng.choice([l for l in K.LATS if l is not None and Fraction(l) >= Fraction(inner)])
+        shared.append([lat, [['m', rng.randint(0, 99)], ['b', inner, [['m', rng.randint(0, 99)], ['b', deep, [['m', rng.randint(0, 99)]]]]]]])
     bodies = []
     for j in range(nb):
         h, g = home[j], grp[j]
@@ -138,8 +148,16 @@ def gen_xprog(rng, profile):
             if r < 0.24:
                 body.append(['Y', delta()])
             elif r < 0.38:
-                lat = rng.choice(K.LATS)
-                body.append(['S', lat, K.gen_elems(rng, lat, 2, valid=rng.random() > 0.1)])
+                if shared and rng.random() < 0.45:
+                    # a template kept in a variable, sent again after a yield (note-off style)
+                    k_ = rng.randrange(len(shared))
+                    body.append(['SB', k_])
+                    if rng.random() < 0.7:
+                        body.append(['Y', delta()])
+                        body.append(['SB', k_])
+                else:
+                    lat = rng.choice(K.LATS)
+                    body.append(['S', lat, K.gen_elems(rng, lat, 2, valid=rng.random() > 0.1)])
             elif r < 0.52:
                 a = play_act(j, rng.randint(j + 1, nb - 1)) if (j + 1 < nb and nplay < 2) else None
                 if a is not None:
@@ -150,7 +168,7 @@ def gen_xprog(rng, profile):
             elif r < 0.68:
                 body.append(['D', rng.randrange(NREQ)])
             elif r < 0.73:
-                body.append(['seed', rng.choice([1, 2, 3, 12345, 7])])
+                body.append(['seed', rng.choice(SEED_POOL)])
             elif r < 0.79:
                 c = pick(nconds, g, cgrp)
                 if c is not None:
@@ -196,10 +214,10 @@ def gen_xprog(rng, profile):
     for t in needs_seed:
         bodies[t].insert(0, ['seed', 100 + t])
     if rng.random() < 0.8:
-        bodies[0].insert(0, ['seed', rng.choice([5, 11, 42])])
+        bodies[0].insert(0, ['seed', rng.choice([5, 11, 42] + SEED_POOL)])
     if free and rng.random() < 0.1 and nb > 1:
         bodies[rng.randrange(nb)].append(rng.choice([['W', nconds + 1], ['fget', nflows], ['P', nb + 2, 'S'], ['fset', nflows + 3, 1]]))
-    return {'tempos': tempos, 'bodies': bodies, 'nconds': nconds, 'nflows': nflows,
+    return {'tempos': tempos, 'bodies': bodies, 'nconds': nconds, 'nflows': nflows, 'shared': shared,
             'mseed': rng.randint(0, 1000), 'tail': rng.choice(['0', '0', '1/4'])}
 
 
@@ -210,6 +228,17 @@ CROSS_PROG = {'tempos': ['1'], 'bodies': [[['seed', 5], ['P', 1, 'S'], ['P', 2, 
 DUP_PROG = {'tempos': [], 'bodies': [[['P', 1, 'S'], ['pause', 1], ['resume', 1]],
                                      [['Y', '1/4'], ['S', '0', [['m', 1]]], ['Y', '1/4'], ['S', '0', [['m', 2]]]]],
             'nconds': 0, 'nflows': 0, 'mseed': 1, 'tail': '0'}
+# a nested bundle kept in a variable and sent three times from different logical times
+SHARED_PROG = {'tempos': [], 'bodies': [[['SB', 0], ['Y', '1/4'], ['SB', 0], ['Y', '1/4'], ['SB', 0]]],
+               'shared': [['1/8', [['m', 1], ['b', '1/4', [['m', 2], ['b', '1/2', [['m', 3]]]]]]]],
+               'nconds': 0, 'nflows': 0, 'mseed': 1, 'tail': '0'}
+# explicit seeds that are not small non-negative ints: str, bytes, float, negative and large ints
+SEEDS_PROG = {'tempos': [], 'bodies': [[['seed', ['s', 'seed']], ['D', 0], ['D', 3], ['P', 1, 'S'], ['P', 2, 'S'], ['P', 3, 'S'], ['P', 4, 'S'], ['Y', '1/8'], ['D', 1]],
+                                       [['seed', ['b', '00ff']], ['D', 0], ['D', 2], ['S', '0', [['m', 1]]]],
+                                       [['seed', ['f', '1/2']], ['D', 0], ['D', 7]],
+                                       [['seed', -7], ['D', 0], ['D', 5]],
+                                       [['seed', 2 ** 70 + 5], ['D', 0], ['D', 9]]],
+              'nconds': 0, 'nflows': 0, 'mseed': 3, 'tail': '0'}
 FIXED = [
     DUP_PROG,
     # the example of the documentation guide, inheritance and re-seeding, pause/resume, flow variable across clocks
@@ -218,6 +247,8 @@ FIXED = [
                                  [['D', 2], ['Y', '1/2'], ['D', 3], ['fget', 0], ['S', None, [['m', 5]]]]],
      'nconds': 1, 'nflows': 1, 'mseed': 99, 'tail': '0'},
     CROSS_PROG,
+    SHARED_PROG,
+    SEEDS_PROG,
 ]
 
 
@@ -380,9 +411,9 @@ def run_rt(ctx, cases, k=0, delay=None, nproc=6):
         payload = {'cases': cases, 'seed': ctx.seed + k}
         if delay:
             payload['delay'] = delay
-        return impl_tagged(ctx, 'rt%d' % k, payload, 'rt', extra_env={'SC3_LIB_PORT': str(port(ctx, k))})
+        return impl_tagged(ctx, 'rt%d' % k, payload, 'rt', hashseed=str(31415 + k), extra_env={'SC3_LIB_PORT': str(port(ctx, k))})
     chunks = [cases[i::nproc] for i in range(nproc)]
-    outs = par([(lambda i=i: impl_tagged(ctx, 'rt%d_%d' % (k, i), {'cases': chunks[i], 'seed': ctx.seed + k + i}, 'rt',
+    outs = par([(lambda i=i: impl_tagged(ctx, 'rt%d_%d' % (k, i), {'cases': chunks[i], 'seed': ctx.seed + k + i}, 'rt', hashseed=str(9001 + 17 * i + k),
                                          extra_env={'SC3_LIB_PORT': str(port(ctx, 10 * k + i + 3))})) for i in range(nproc)])
     res = [None] * len(cases)
     for i in range(nproc):
@@ -399,13 +430,13 @@ def correspond(ctx):
     if os.path.exists(corpus):
         nrt_cases += json.load(open(corpus))
     nrt_cases += [gen_xprog(rng, 'nrt') for _ in range(ctx.n(700, 3000))]
-    rt_cases = [gen_xprog(rng, 'single' if i % 2 == 0 else 'groups') for i in range(ctx.n(180, 900))]
+    rt_cases = [SHARED_PROG, SEEDS_PROG] + [gen_xprog(rng, 'single' if i % 2 == 0 else 'groups') for i in range(ctx.n(180, 900))]
     cases = nrt_cases + rt_cases
     first_rt = len(nrt_cases)
 
     # (a) two fresh non-real-time processes (different hash seeds): byte-identical scores, same values
-    A, B = par([lambda: impl_tagged(ctx, 'nrtA', {'cases': cases}, 'nrt', hashseed='0'),
-                lambda: impl_tagged(ctx, 'nrtB', {'cases': cases}, 'nrt', hashseed='7')])
+    A, B = par([lambda: impl_tagged(ctx, 'nrtA', {'cases': cases}, 'nrt', hashseed='101'),
+                lambda: impl_tagged(ctx, 'nrtB', {'cases': cases}, 'nrt', hashseed='2718')])
     c.evaluations += 2 * len(cases)
     items, idx = [], []
     for i, (p, a, b) in enumerate(zip(cases, A, B)):
@@ -491,6 +522,8 @@ def correspond(ctx):
         if not r.get('completed') or 'fatal' in a:
             c.count('rt:not-completed-in-time (machine load); not compared')
             continue
+        if any(a_[0] == 'SB' for b_ in p['bodies'] for a_ in b_):
+            c.count('rt:programs sending a shared nested bundle again')
         c.count('rt:%s:wakeups:%d' % ('single-clock' if is_single(p) else 'several-clocks', min(12, len(r['schedule']))))
         c.nontriv(('rt', json.dumps(p, sort_keys=True)))
         d = diff_runs(p, a, r, is_single(p))
@@ -575,8 +608,8 @@ def search(ctx, failures):
     # 1. two NRT runs; 2. RT vs NRT
     cases = [gen_xprog(rng, 'single' if i % 2 else 'groups') for i in range(ctx.n(30, 200))]
     cases = [DUP_PROG] + cases
-    A, B = par([lambda: impl_tagged(ctx, 'sA', {'cases': cases}, 'nrt', hashseed='0'),
-                lambda: impl_tagged(ctx, 'sB', {'cases': cases}, 'nrt', hashseed='3')])
+    A, B = par([lambda: impl_tagged(ctx, 'sA', {'cases': cases}, 'nrt', hashseed='404'),
+                lambda: impl_tagged(ctx, 'sB', {'cases': cases}, 'nrt', hashseed='505')])
     for p, a, b in zip(cases, A, B):
         if 'fatal' in a or 'fatal' in b:
             continue
